@@ -78,14 +78,15 @@ CHECKS = {
         "combinators. " + DIA,
    note=DNOTE,
    technique=DTECH),
- "C20": dict(cat="other", design="7.20",
-   text="as_graphviz total and faithful. An executable Coq model of the three diagram implementations (Mdd.v: clean LEL / frontier / pooled, one parametric transliteration) is compared "
-        "with the code on every compilation of the stream (API results, drained cut-set, full DOT dump with node ids/flags/bounds/thresholds/edges, callback log): "
-        "any behavioural change of the diagram code breaks the correspondence. The property's clauses are evaluated on the implementation's answers with the "
-        "extracted Coq specification (exhaustive enumeration of the sub-problem) as oracle. Theorems about the model are registered in Props/C20.v as they are "
-        "closed; the semantic bound/cover theorems are still open obligations (listed in the evidence).",
-   note=TB + "Hash-map iteration order is abstracted (layers sorted by a total DominanceChecker comparator; tie among equally valued terminals = oracle argument).",
-   technique="executable Coq model + differential correspondence + specification oracle; partial Coq theorems"),
+ "C20": dict(cat="proof", design="7.20",
+   text="as_graphviz total and faithful. Closed Coq theorems about the model printer Viz.as_graphviz (VizProofs.v): for EVERY diagram the output is the rendering of a statement list (exact string "
+        "equality); for a completed compilation (all flavours) that list declares every node not hidden by the configuration exactly once, draws every inbound arc of a declared node exactly once with "
+        "its decision and cost between nodes of the diagram (declared or hidden by the configuration), marks best edges, draws the terminal iff the last layer is non-empty (clean flavours: and a best "
+        "node exists), puts clusters only on request; C20_as_graphviz_total (never panics). Well-formedness is proved at line level only (header / footer, `;`-terminated lines, quote parity), "
+        "not against a DOT grammar. Tied to the code by string equality of the real as_graphviz with the model printer for all 64 flag sets x 3 flavours on every diagram of the stream, plus a "
+        "DOT reader and the terminal oracle on the implementation's output; corpus witness of the repaired defect D8 first. " + DIA,
+   note=DNOTE,
+   technique=DTECH),
  "C01": dict(cat="proof", design="7.1",
    text="Sequential branch-and-bound returns the true optimum. Closed, axiom-free Coq theorem C01_sequential_solver_returns_optimum (Assembly.v = SolverProofs.v + MddProgress.v + MddSim.v): "
         "there is f0 such that for every fuel >= f0 the model of SequentialSolver::maximize neither crashes nor runs out of fuel, reports is_exact, best_value = the optimum of exhaustive "
@@ -118,11 +119,12 @@ CHECKS = {
    note=TB + "Hash-map iteration order abstracted (total comparator + tie-break oracle arguments); ties among equally valued terminal nodes are reported and excluded from trajectory comparisons." + " Not modelled: spurious condvar wake-ups; the post-panic behaviour of the other workers (irrelevant once no panic is reachable).",
    technique="Coq proof (two storeys: B&B under diagram contracts; contracts proved about the diagram model) + differential correspondence + specification oracle"),
  "C05": dict(cat="proof", design="7.5",
-   text="Bounds stay sound when the search is cut off at any point. Sequential: closed Coq theorem C05_sequential_anytime_bounds_sound for ANY cutoff point, fuel and feasible warm start: no crash, "
-        "lb <= ub, lb <= optimum <= ub, a reported value comes with a feasible solution of that value, exact => optimum. " + ASM +
+   text="Bounds stay sound when the search is cut off at any point. Closed Coq theorems for ANY cutoff point, fuel and feasible warm start: sequential C05_sequential_anytime_bounds_sound "
+        "(both fringes) and PARALLEL C05_parallel_anytime_bounds_sound (every thread count and schedule; also C05_parallel_bounds_sound_in_every_reachable_state): no crash, lb <= ub, "
+        "lb <= optimum <= ub, a reported value comes with a feasible solution of that value, exact => optimum. " + ASM +
         "Check: counting cutoff firing at EVERY poll index of the uninterrupted run; bounds enclose the optimum of exhaustive enumeration, solution replays to the lower bound; solver model "
-        "compared at every index. Parallel: no full theorem (partial lemmas about the abort path); scheduled runs with cutoffs incl. runs where two workers abort "
-        "(finding D3: unsound upper bound after an abort, reproduced and repaired by a fix: commit).",
+        "compared at every index. Parallel: scheduled runs with cutoffs incl. a recipe that makes several workers abort in one run, saturating relaxations, corpus of the two defects found "
+        "(D3 and its residual D9, both reproduced on the real code and repaired by fix: commits; D9 was found while proving the parallel theorem).",
    note=TB + "Hash-map iteration order abstracted (total comparator + tie-break oracle arguments); ties among equally valued terminal nodes are reported and excluded from trajectory comparisons.",
    technique="Coq proof (two storeys: B&B under diagram contracts; contracts proved about the diagram model) + differential correspondence + specification oracle"),
  "C09": dict(cat="other", design="7.9",
@@ -150,8 +152,11 @@ CHECKS = {
         "(ExSpec.v: enumeration of subsets / permutations / assignments, NOT dynamic programs), extracted to OCaml and used as oracle for the example BINARIES "
         "built from the working tree, on generated instance files in each format (bounded-exhaustive smallest sizes in the thorough tier) x widths {1,2,3,default} "
         "x threads {1,2,4}; timeouts = hangs, non-zero exit = crash. The oracle is re-validated on every run against the optima documented in the examples' tests. "
-        "No Coq proof that the examples' models are well formed (stated in DESIGN.md): this is specification + differential test. Three defects were repaired "
-        "(knapsack rough bound twice, misp rough bound), the others are recorded as known findings.",
+        "For ONE example, knapsack, there is more: a Coq transliteration of its DP model / relaxation / Dantzig rough bound / ranking (Knapsack.v) is proved to meet the premises of the solver theorem "
+        "(incl. admissibility of the integer fractional bound for items sorted by ratio), the theorem is instantiated on it (kp_C01: clean flavours, no cache / dominance, i.e. NOT the configuration of the "
+        "example's main), and the model is tied to the example's own source, compiled into the harness, by differential runs over decision prefixes (states, domains, costs, bounds, merges) including the "
+        "premise `sorted by ratio` evaluated on the order Knapsack::new computes. For the other eleven examples there is no Coq proof that their models are well formed: specification + differential test. "
+        "Three defects were repaired (knapsack rough bound twice, misp rough bound), the others are recorded as known findings.",
    note=TB + "exdriver.ml contains independent parsers of the twelve input formats (trusted glue).",
    technique="independent Gallina enumeration specs (extracted) as oracle for the example binaries"),
 }
